@@ -134,17 +134,7 @@ def known_id(case, r):
     if fn == "line_segment_to_circle":
         if r.get("on_line") is False:
             return "F10"          # endpoint clamp arm taken
-        s, e = case["A"]["s"], case["A"]["e"]
-        d = pl.unit([e[i] - s[i] for i in range(3)])
-        m0, b1, rm0 = line_circle_branch(s, d, case["B"])
-        if rm0 > b1 > 0.0:
-            return "F8"
-    if fn == "line_to_circle":
-        m0, b1, rm0 = line_circle_branch(case["A"]["p"], case["A"]["d"], case["B"])
-        if rm0 > b1 > 0.0:
-            return "F8"           # the arm that uses the mis-transcribed s_hat
-    if fn in ("plane_to_triangle", "plane_to_rectangle", "plane_to_box") and c10.shallow_crossing(case):
-        return "FD1"
+    # FD1 (plane_to_hull shallow crossing) and F8 (s_hat) are FIXED in /repo (e4c9460, df96822): no routing any more
     if fn == "disk_to_disk":
         cls = disk_class(case)
         if cls == "general":
